@@ -546,3 +546,4 @@ EXPLANATION += (' Shared with C07: EXTRACT/roll-pitch-range, EXTRACT/roll-gap-in
 EXPLANATION += (' Round 6: ' + 'PITFALL/previous-wraps and PITFALL/neg-zero-slice over all renderers and extractors; RENDER/note-off-ends-one (the per-pitch list of open onsets is never taken out of the map without storing the remainder back).')
 EXPLANATION += (' Round 7: ' + 'EXTRACT/chord-symbols-all-read; RENDER/melody-note-per-onset; EXTRACT/order-key-on-the-grid (known finding F29).')
 EXPLANATION += (' Rounds 9-10: ' + 'PITFALL/unforwarded-parameter and dead-parameter over the event-sequence classes (shared with C07); EXTRACT/metric-limit reads through nested one-return helpers and is located when the limit does not mention max_shift_quarters.')
+EXPLANATION += (' Round 11: ' + 'EXTRACT/pad-next-bar-line shared from C07; EXTRACT/sustained-is-about-the-last-event.')
